@@ -26,6 +26,7 @@ struct Conf {
   bool no_integrate; // integrate off: no on-the-fly integrator object exists
   bool scaled;       // scaledBiasingForce with factors 0.5 (bins 0,1) and 2.0 (bins 2,3) read from a file; 1 outside the grid
   bool hide_jac;
+  int sub2d;         // two variables: subtractAppliedForce on in e only (1) or in d only (2) - the bias must treat each variable on its own
 };
 // (hide_jac: hideJacobian on - the Jacobian term is left out of the samples and a compensating force -kT dln|J|/dxi acts on the variable)
 static double scale_factor(Conf const &c, int bin) { return (!c.scaled || bin < 0) ? 1.0 : (bin < 2 ? 0.5 : 2.0); }
@@ -36,11 +37,11 @@ static std::string conf_text(Conf const &c, std::string const &input_prefix = ""
   if (c.periodic) {
     s += "colvar {\n name d\n width 0.5\n lowerBoundary 0.0\n upperBoundary 2.0\n distanceZ {\n period 2.0\n wrapAround 1.0\n axis (1, 0, 0)\n main { atomNumbers 2 }\n ref { atomNumbers 1 }\n }\n}\n";
   } else {
-    s += std::string(c.grid_block ? "colvar {\n name d\n width 0.5\n lowerBoundary 1.5\n upperBoundary 2.5\n" : "colvar {\n name d\n width 0.5\n lowerBoundary 1.0\n upperBoundary 3.0\n") + (c.harmonic == 2 ? " subtractAppliedForce on\n" : "") +
+    s += std::string(c.grid_block ? "colvar {\n name d\n width 0.5\n lowerBoundary 1.5\n upperBoundary 2.5\n" : "colvar {\n name d\n width 0.5\n lowerBoundary 1.0\n upperBoundary 3.0\n") + ((c.harmonic == 2 || c.sub2d == 2) ? " subtractAppliedForce on\n" : "") +
          " distance {\n group1 { atomNumbers 1 }\n group2 { atomNumbers 2 }\n }\n}\n";
   }
   if (c.nd == 2)
-    s += std::string(c.grid_block ? "colvar {\n name e\n width 0.5\n lowerBoundary 1.5\n upperBoundary 2.0\n" : "colvar {\n name e\n width 0.5\n lowerBoundary 1.0\n upperBoundary 2.0\n") + " distance {\n group1 { atomNumbers 3 }\n group2 { atomNumbers 4 }\n }\n}\n";
+    s += std::string(c.grid_block ? "colvar {\n name e\n width 0.5\n lowerBoundary 1.5\n upperBoundary 2.0\n" : "colvar {\n name e\n width 0.5\n lowerBoundary 1.0\n upperBoundary 2.0\n") + (c.sub2d == 1 ? " subtractAppliedForce on\n" : "") + " distance {\n group1 { atomNumbers 3 }\n group2 { atomNumbers 4 }\n }\n}\n";
   s += std::string("abf {\n name a\n colvars d") + (c.nd == 2 ? " e" : "") + "\n fullSamples " + std::to_string(c.full_s) + "\n minSamples " + std::to_string(c.min_s) + "\n";
   if (!c.apply) s += " applyBias off\n";
   if (c.max_force > 0) s += " maxForce " + num(c.max_force) + (c.nd == 2 ? " " + num(c.max_force) : "") + "\n";
@@ -198,6 +199,8 @@ int main(int argc, char **argv)
       {"1d-periodic-maxForce", 1, true, 0, 1, true, 0.8, 0, 0, false},
       {"1d-periodic-ramp-1-3-maxForce", 1, true, 1, 3, true, 0.6, 0, 0, false},
       {"2d", 2, false, 0, 2, true, 0, 0, 0, false},
+      {"2d-subtractAppliedForce-in-the-second-variable-only", 2, false, 0, 2, true, 0, 0, 0, false, false, false, false, false, 1},
+      {"2d-subtractAppliedForce-in-the-first-variable-only", 2, false, 0, 2, true, 0, 0, 0, false, false, false, false, false, 2},
       {"1d-grid-block", 1, false, 0, 1, true, 0, 0, 0, false, true},
       {"1d-grid-block-ramp-1-3-plus-harmonic", 1, false, 1, 3, true, 0, 1, 0, false, true},
       {"2d-grid-block", 2, false, 0, 2, true, 0, 0, 0, false, true},
